@@ -16,7 +16,7 @@ EXPLANATION = ("Interaction elements (TwoPointLinearSpring, TwoPointLinearDamper
 BOUNDS = ("elements x attachments {12,21,02,20,11,22,(23)} x trees of spec/C13.py; all 'lin' inputs free (u, stiffness, damping, force, rest length); "
           "k free coordinates at a time (1 quick / 2 thorough) for the two-point elements, coordinates pinned for LinearBushing; other inputs "
           "at exact rational base points (2 quick / 6 thorough)")
-NOT_COVERED = ("CableSpring/CableSpan, compliant contact and ElasticFoundation elements (contact: see C37; cables and meshes not reached by this harness); "
+NOT_COVERED = ("CableSpring/CableSpan (see C45), ElasticFoundation and compliant contact other than the CompliantContactSubsystem sphere-sphere Hertz pair with off-origin surfaces (contact laws: see C37; cables and meshes not reached by this harness); "
                "coincident stations (documented error); float; rounding")
 
 TREES = ["Pin:0,Slider:1", "Gimbal:0,Pin:1/1", "Planar:0,Universal:1/1,Pin:1", "Slider:0/1,Ball:1,Cylinder:2/1"]
@@ -45,10 +45,14 @@ def instances(tier, seed):
                 if el == "LinearBushing":
                     out[-1]["base_points"] = 2
             n += 1
-    return out
+    _ret = out
+    return list(_ret) + _compliant_instances(tier)
 
 
 def free_sets(inst, tr, tier, rng):
+    if inst.get("kind") == "compliant":
+        lin = [n for n, k, _, _ in tr.inputs if k == "lin"]
+        return [lin, lin + ["mu"]]
     lin = [n for n, kind, _, _ in tr.inputs if kind == "lin"]
     if inst.get("bushing"):
         return [lin]
@@ -56,7 +60,58 @@ def free_sets(inst, tr, tier, rng):
     return [lin + [n for n in s if n not in lin] for s in sets]
 
 
+def _compliant_instances(tier):
+    return [dict(name="CompliantContact sphere-sphere (off-origin surfaces)|%s" % v, harness="C13_compliant.cpp", args=[v], kind="compliant",
+                 base_points=2 if tier == "quick" else 4, max_terms=40000) for v in ("free", "pinball")]
+
+
+def _compliant_obligations(enc, inst, tr):
+    """sum of the contact's body forces and of their moments about the Ground origin vanish (Ground entry included)"""
+    if tr.note("exception"):
+        raise RuntimeError("harness exception: " + tr.note("exception"))
+    R = enc.ring
+    nb = int(tr.note("nb"))
+    nc = int(tr.note("ncontacts"))
+    if nc != 1:
+        raise RuntimeError("expected exactly one contact at the seed, got %d" % nc)
+
+    def cross(a, b):
+        m = R.mul
+        return [P.sub(m(a[1], b[2]), m(a[2], b[1])), P.sub(m(a[2], b[0]), m(a[0], b[2])), P.sub(m(a[0], b[1]), m(a[1], b[0]))]
+
+    totf, totm = [{}, {}, {}], [{}, {}, {}]
+    for b in range(nb):
+        mo = [enc.out("F%d_w_%d" % (b, i)) for i in range(3)]
+        fo = [enc.out("F%d_v_%d" % (b, i)) for i in range(3)]
+        pb = [enc.out("p%d_%d" % (b, i)) for i in range(3)]
+        cr = cross(pb, fo)
+        for i in range(3):
+            totf[i] = P.add(totf[i], fo[i])
+            totm[i] = P.add(totm[i], P.add(mo[i], cr[i]))
+    fB = [enc.out("F%d_v_%d" % (nb - 1, i)) for i in range(3)]
+    twin = None
+    for comp in fB:
+        if comp:
+            twin = [Constraint(1, comp, "force on the last body alone vanishes [twin]")]
+            break
+    goal = [Constraint(1, totf[i], "sum F [%d] = 0" % i) for i in range(3)] + [Constraint(1, totm[i], "sum (tau + p x F) [%d] = 0" % i) for i in range(3)]
+    obs = [Ob("CompliantContactSubsystem sphere-sphere: total force and total moment about the Ground origin vanish", goal, twin=twin)]
+    # the force applied to surface 2's body is the reported contact force shifted from the contact point to that body's origin
+    pt = [enc.out("cf_point_%d" % i) for i in range(3)]
+    cfm = [enc.out("cf_F_w_%d" % i) for i in range(3)]
+    cff = [enc.out("cf_F_v_%d" % i) for i in range(3)]
+    b2 = nb - 1
+    p2 = [enc.out("p%d_%d" % (b2, i)) for i in range(3)]
+    r2 = [P.sub(pt[i], p2[i]) for i in range(3)]
+    cr = cross(r2, cff)
+    pairs = [(enc.out("F%d_v_%d" % (b2, i)), cff[i]) for i in range(3)] + [(enc.out("F%d_w_%d" % (b2, i)), P.add(cfm[i], cr[i])) for i in range(3)]
+    obs.append(eqs(enc, "CompliantContactSubsystem sphere-sphere: body force on surface 2's body = reported contact force shifted to the body origin", pairs))
+    return obs
+
+
 def obligations(enc, inst, tr):
+    if inst.get("kind") == "compliant":
+        return _compliant_obligations(enc, inst, tr)
     if tr.note("exception"):
         raise RuntimeError("harness exception: " + tr.note("exception"))
     nan = FL.nan_obligations(tr)
